@@ -73,6 +73,20 @@ impl From<Decimal> for Value {
 }
 
 impl Value {
+    /// Whether lists and maps are nested more than `limit` levels deep (looks no further down than that).
+    pub(crate) fn nested_beyond(&self, limit: usize) -> bool {
+        match self {
+            Self::List(items) => limit == 0 || items.iter().any(|v| v.nested_beyond(limit - 1)),
+            Self::Map(entries) => {
+                limit == 0
+                    || entries
+                        .iter()
+                        .any(|(k, v)| k.nested_beyond(limit - 1) || v.nested_beyond(limit - 1))
+            }
+            _ => false,
+        }
+    }
+
     pub fn decimal(self) -> Result<rust_decimal::Decimal> {
         match self {
             Self::Number(val) => Ok(val),
